@@ -309,9 +309,9 @@ Section LB.
                      | CsForwardBefore _ =>
                        match slice_to (buf b) (shift + p) with
                        | Panic => Panic
-                       | Ok l2 => match last_char_len l2 with
-                                  | Some k => Ok (Some (shift + p - k))
-                                  | None => Panic       (* unwrap on None *)
+                       | Ok l2 => match rev (seg l2) with       (* one cluster before the match (repair of F5) *)
+                                  | g :: _ => Ok (Some (shift + p - blen g))
+                                  | [] => Ok (Some (shift + p))
                                   end
                        end
                      | _ => Ok (Some (shift + p))
